@@ -80,6 +80,8 @@ Catalogue == {
   \* ---- one input per way a production can fail
   Case("block-type-3", << F(1, 1), F(3, 2), F(0, 5) >>, "reject", "block-type"),
   Case("stored-nlen", HeaderFields(1, 0) \o << F(0, 5), F(2, 16), F(65532, 16), F(7, 8), F(8, 8) >>, "reject", "len-nlen"),
+  \* NLEN with ones where the complement has zeros (LEN | NLEN is still all ones, LEN xor NLEN is not)
+  Case("stored-nlen-extra-ones", HeaderFields(1, 0) \o << F(0, 5), F(2, 16), F(65535, 16), F(7, 8), F(8, 8) >>, "reject", "len-nlen"),
   Case("hlit-287", HeaderFields(1, 2) \o << F(30, 5), F(1, 5), F(15, 4) >> \o [k \in 1..19 |-> F(DCl[ClOrder[k]], 3)], "reject", "too-many-symbols"),
   \* block type history fixed, dynamic, fixed: the dynamic code (a = 0, b = 10, c = 110, end = 111) is such
   \* that the last block's bits ('A' under the fixed code: 01110001, then the end of block) also read under it
